@@ -161,6 +161,16 @@ pub fn set_slot_pos(p: &Pos) {
     set_slot(1, &pos_bytes(p));
 }
 
+/// a position reached by a history on the real board: root position + (from, to, promotion) per ply
+pub fn set_slot_hist(root: &Pos, path: &[Mv]) {
+    let mut v = Vec::with_capacity(80 + 3 * path.len());
+    v.extend_from_slice(&pos_bytes(root));
+    for m in path {
+        v.extend_from_slice(&[m.from, m.to, m.promo]);
+    }
+    set_slot(5, &v);
+}
+
 pub fn set_slot_raw(r: &RawPos) {
     let p = Pos {
         b: r.b,
